@@ -218,9 +218,9 @@ func budgetFor(tier string) time.Duration {
 		return time.Duration(n) * time.Second
 	}
 	if tier == "thorough" {
-		return 600 * time.Second
+		return 300 * time.Second
 	}
-	return 60 * time.Second
+	return 20 * time.Second
 }
 
 func main() {
